@@ -94,6 +94,13 @@ impl<S: ParserOutputSink> Parser<S> {
                 }
                 ActionError::ParserDirectiveChangeRequired(new_directive, sm_bookmark) => {
                     self.current_directive = new_directive;
+                    #[cfg(feature = "_verif_hooks")]
+                    crate::verif::emit(match new_directive {
+                        ParserDirective::Lex => crate::verif::Event::SwitchToLexer,
+                        ParserDirective::WherePossibleScanForTagsOnly => {
+                            crate::verif::Event::SwitchToTagScanner
+                        }
+                    });
 
                     trace!(@continue_from_bookmark sm_bookmark, self.current_directive, input);
 
